@@ -803,7 +803,7 @@ Proof.
   destruct (ready w) as [|x r] eqn:Er; [destruct arrived as [|a ar]; [destruct dn|]|];
     try (apply IH; [exact Hl|]; apply GG_iteration; [exact Ha|exact Hg]).
   destruct (omin _ _) as [t|]; [|exact Hg]. destruct (t_end <? t); [exact Hg|].
-  apply IH; [exact Hev|]. eapply GG_same; [apply n_set_now|exact Hg].
+  apply IH; [exact Hev|]. destruct Hg as [A [B C]]. split; [apply GP_set_now; exact A|split; [exact B|exact C]].
 Qed.
 
 Lemma d_event_in_notexp s e : d_event_in s = Some e -> notexp_b (snd e) = true.
